@@ -50,6 +50,15 @@ def generate(rng, tier):
             gcs = [{"name": f"g{k}", "on": on} for k in range(rng.choice([2, 3, 4]))] + [{"name": "gall", "on": list(range(ncubes))}]
         yield {"base": base, "ca": ca, "lens": lens, "fam": rng.choice(FAMILIES), "wseed": rng.randrange(10**6), "ecs": ecs,
                "gcs": gcs, "lead": rng.random() < 0.3}
+    # systematic: two Quantity tables on the common axis of which the second repeats the first in another unit
+    # (every attached coordinate object is returned, also one whose values another already has)
+    for nd in (1, 2, 3):
+        for ncubes in (1, 2, 3):
+            ca = rng.randrange(nd)
+            yield {"base": [rng.randint(2, 4) for _ in range(nd)], "ca": ca, "lens": [rng.randint(1, 4) for _ in range(ncubes)],
+                   "fam": rng.choice(FAMILIES), "wseed": rng.randrange(10**6),
+                   "ecs": [{"kind": "quantity", "axes": [ca]}, {"kind": "quantity", "axes": [ca], "dup": True}],
+                   "gcs": [], "lead": False}
 
 
 def build(case):
